@@ -198,7 +198,7 @@ def check_multiplier(run):
             "more_failing_pairs(out,in)": [(x["out"], x["in"]) for x, _ in lst_[1:25]]})
     run.sample({"multiplier": "out=1 in=3", "codes": expected_codes(1, 3, 7)})
     t0 = time.time()
-    failing = run.coq_failing(HEADER, terms, chunk=1000, jobs=14)
+    failing = run.coq_failing(HEADER, terms, chunk=2200, jobs=14)      # ~1.4 s start-up per coqc: few large chunks
     run.cov["coq_seconds_multiplier"] = round(time.time() - t0, 1)
     run.cov["traces_validated_against_impl"] += len(terms) - len(failing)
     oracle_bad = {(c["out"], c["in"]) for l in fails.values() for c, _ in l}
@@ -680,7 +680,7 @@ def check_clock(run):
     run.sample({"clock_script": {k: v for k, v in clock_payload(cases[0]).items() if k != "readings"},
                 "first_readings": clock_payload(cases[0])["readings"][:5], "counts": res[0].get("counts", [])[:5]})
     t0 = time.time()
-    failing = run.coq_failing(HEADER, terms, chunk=6, jobs=14)
+    failing = run.coq_failing(HEADER, terms, chunk=12, jobs=14)
     run.cov["coq_seconds_clock"] = round(time.time() - t0, 1)
     run.cov["traces_validated_against_impl"] += len(terms) - len(failing)
     for i in failing:
